@@ -65,7 +65,7 @@ func (pass *PrefixEnumValues) processEnum(parentName string, def ast.Type) ast.T
 }
 
 func (pass *PrefixEnumValues) enumMemberNameFromValue(member ast.EnumValue) string {
-	if member.Type.Scalar.ScalarKind == ast.KindString && member.Value.(string) == "" {
+	if value, isString := member.Value.(string); member.Type.Scalar.ScalarKind == ast.KindString && isString && value == "" {
 		return "None"
 	}
 
@@ -73,7 +73,7 @@ func (pass *PrefixEnumValues) enumMemberNameFromValue(member ast.EnumValue) stri
 		return tools.UpperCamelCase(member.Name)
 	}
 
-	if member.Name[0] == '-' {
+	if member.Name != "" && member.Name[0] == '-' {
 		return tools.UpperCamelCase(fmt.Sprintf("negative%s", member.Name[1:]))
 	}
 
